@@ -28,7 +28,7 @@ fn main() {
     .pbt(conc::Concurrent)
     .pbt(fault::FaultInjection)
     .pbt(bytes::Arbitrary);
-    vcore::main_with(vec![check], &[("selftest", model_selftest), ("layout", layout)]);
+    vcore::main_with(vec![check], &[("selftest", model_selftest), ("layout", layout), ("labels", labels)]);
 }
 
 /// `c12 selftest`: the size arithmetic of the harness against the real encoders.
@@ -84,6 +84,35 @@ fn model_selftest(_: &[String]) -> i32 {
     }
     println!("selftest: {bad} mismatches, {noplan} targets without a plan");
     (bad > 0) as i32
+}
+
+/// `c12 labels <replay.json>...`: run saved cases once and print their labels (debugging aid: does
+/// a hand-made case reach what it was made for?).
+fn labels(args: &[String]) -> i32 {
+    use vcore::Property;
+    let scratch = std::path::PathBuf::from(format!("/dev/shm/c12-labels-{}", std::process::id()));
+    std::fs::create_dir_all(&scratch).expect("scratch");
+    let ctx = vcore::Ctx { prop: "C12".into(), tier: vcore::Tier::Quick, seed: 0, worker: 0, nworkers: 1, scratch: scratch.clone(), strict: false, replay: false };
+    for a in args {
+        let rf: vcore::ReplayFile = serde_json::from_slice(&std::fs::read(a).expect("read")).expect("parse");
+        let case = rf.case.clone();
+        let o = match rf.part.as_str() {
+            "sequential-roundtrip" => seq::RoundTrip.run(&ctx, &serde_json::from_value(case).expect("case")),
+            "truncation" => seq::Truncation.run(&ctx, &serde_json::from_value(case).expect("case")),
+            "concurrent-append" => conc::Concurrent.run(&ctx, &serde_json::from_value(case).expect("case")),
+            "fault-injection" => fault::FaultInjection.run(&ctx, &serde_json::from_value(case).expect("case")),
+            other => {
+                println!("{a}: unknown part {other}");
+                continue;
+            }
+        };
+        println!("{a}: nontrivial={} inconclusive={} failure={:?} excluded={:?}", o.nontrivial, o.inconclusive, o.failure.map(|f| f.signature), o.excluded);
+        for l in o.labels {
+            println!("    {l}");
+        }
+    }
+    let _ = std::fs::remove_dir_all(scratch);
+    0
 }
 
 /// `c12 layout <steps.json>`: print the frame layout a list of steps produces (debugging aid).
